@@ -394,7 +394,7 @@ def shrL (fix : Bool) : List Node → List Node
 end
 
 mutual
-/-- `shrink_defs` raises KeyError: some parenthesised group (even one already detached) has two Def-expand tags -/
+/-- (legacy) `shrink_defs` raised KeyError: some parenthesised group (even one already detached) has two Def-expand tags -/
 def shrErrN : Node → Bool
   | .tag _ => false
   | .grp ks => decide ((deTagsA ks).length ≥ 2) || shrErrL ks
@@ -409,8 +409,16 @@ def expandG (fix : Bool) (dd : DefDict) (o : Obj) : Except Err Obj :=
   else if anyTagL (intTag fold dd) false o.kids then .error .valueError
   else .ok { kids := expL fold fix dd false o.kids, cyclic := anyTagL (cycTag fold dd) false o.kids }
 
-/-- `HedString.shrink_defs()` -/
+/-- `HedString.shrink_defs()`.  A group found again (it holds a further Def-expand tag, or it lies inside a
+group that has already been replaced) is skipped by the identity test
+`any(child is def_expand_group for child in expanded_parent.children)`: the outermost group holding a
+Def-expand tag becomes its FIRST such tag, everything else in it is dropped, nothing is raised. -/
 def shrinkG (fix : Bool) (o : Obj) : Except Err Obj :=
+  if o.cyclic then .error .recursion
+  else .ok { o with kids := shrL fix o.kids }
+
+/-- `shrink_defs()` before that identity test: the second visit of a group raised KeyError (`shrErrL`). -/
+def shrinkLegacyG (fix : Bool) (o : Obj) : Except Err Obj :=
   if o.cyclic then .error .recursion
   else if shrErrL o.kids then .error .keyError
   else .ok { o with kids := shrL fix o.kids }
